@@ -185,6 +185,7 @@ func childServer(args []string) {
 httpAddress = ":0"
 rpcAddress = ":0"
 shutdownDelay = 0
+allowLabelmapSplit = true
 %s
 [logging]
 logfile = %q
